@@ -70,6 +70,7 @@ package ccontainer
 //@ func (*CContainer).WaitValue$1
 //@   props C15
 //@   pure
+//@   captured c != nil
 //@   opt frame = skip
 //@   opt pure-callbacks = equal
 //@   ensures result1 == nil
@@ -84,6 +85,7 @@ package ccontainer
 //@ func (*CContainer).WaitValueChange$1
 //@   props C15
 //@   pure
+//@   captured c != nil
 //@   opt frame = skip
 //@   opt pure-callbacks = equal
 //@   ensures result1 == nil
@@ -99,6 +101,7 @@ package ccontainer
 //@ func (*CContainer).WaitValueEmpty$1
 //@   props C15
 //@   pure
+//@   captured c != nil
 //@   opt frame = skip
 //@   opt pure-callbacks = equal
 //@   ensures result1 == nil
